@@ -258,7 +258,7 @@ func (w *histWorld) Exec(p *Plan, st *RunStats) *Violation {
 			}
 			safely(inert, bop, func() { inert.V = nil; by.Step(bop, inert) })
 		}
-		byObs = by.ObsJSON()
+		safely(o, Op{ID: -2, N: "ObserveBystander"}, func() { byObs = by.ObsJSON() })
 		if p.Cfg.MapSeed%4 == 0 {
 			// two collections empty every sync.Pool: whatever the package pools is from here on created by
 			// the container under test, at a point fixed by the plan (not by the collector's own timing)
@@ -311,8 +311,12 @@ func (w *histWorld) Exec(p *Plan, st *RunStats) *Violation {
 				if skipped {
 					continue
 				}
-				if a, b := s.ObsJSON(), fresh.ObsJSON(); a != b {
-					o.Fail("C15", "cleared-vs-fresh", "after Clear and the continuation up to %s the cleared container and a freshly constructed one differ:\n cleared: %s\n fresh:   %s", op, a, b)
+				safely(o, op, func() {
+					if a, b := s.ObsJSON(), fresh.ObsJSON(); a != b {
+						o.Fail("C15", "cleared-vs-fresh", "after Clear and the continuation up to %s the cleared container and a freshly constructed one differ:\n cleared: %s\n fresh:   %s", op, a, b)
+					}
+				})
+				if o.Failed() {
 					break
 				}
 			}
@@ -320,9 +324,13 @@ func (w *histWorld) Exec(p *Plan, st *RunStats) *Violation {
 				clears++
 				fresh = s.Fresh()
 				fo = NewOracle(w.prop, w.tags...)
-				if a, b := s.ObsJSON(), fresh.ObsJSON(); a != b {
-					o.cur = op
-					o.Fail("C15", "cleared-vs-fresh", "right after Clear the container differs from a freshly constructed one:\n cleared: %s\n fresh:   %s", a, b)
+				safely(o, op, func() {
+					if a, b := s.ObsJSON(), fresh.ObsJSON(); a != b {
+						o.cur = op
+						o.Fail("C15", "cleared-vs-fresh", "right after Clear the container differs from a freshly constructed one:\n cleared: %s\n fresh:   %s", a, b)
+					}
+				})
+				if o.Failed() {
 					break
 				}
 			}
@@ -336,17 +344,21 @@ func (w *histWorld) Exec(p *Plan, st *RunStats) *Violation {
 			safely(o, Op{ID: -1, N: "FinalCheck"}, func() { o.cur = Op{ID: -1, N: "FinalCheck"}; h.CheckNow(o) })
 		}
 		if fresh != nil && !o.Failed() {
-			if a, b := s.ObsJSON(), fresh.ObsJSON(); a != b {
-				o.cur = Op{ID: -1, N: "FinalCheck"}
-				o.Fail("C15", "cleared-vs-fresh", "at the end of the run the cleared container and a freshly constructed one differ:\n cleared: %s\n fresh:   %s", a, b)
-			}
+			safely(o, Op{ID: -1, N: "FinalCheck"}, func() {
+				if a, b := s.ObsJSON(), fresh.ObsJSON(); a != b {
+					o.cur = Op{ID: -1, N: "FinalCheck"}
+					o.Fail("C15", "cleared-vs-fresh", "at the end of the run the cleared container and a freshly constructed one differ:\n cleared: %s\n fresh:   %s", a, b)
+				}
+			})
 		}
 	}
 	if by != nil && !o.Failed() {
-		if now := by.ObsJSON(); now != byObs {
-			o.cur = Op{ID: -1, N: "FinalCheck"}
-			o.Fail(w.prop, "bystander-changed", "a second %s that the history never touched changed while the first was operated on:\n before %s\n after  %s", p.Cfg.Kind, byObs, now)
-		}
+		safely(o, Op{ID: -1, N: "FinalCheck"}, func() {
+			if now := by.ObsJSON(); now != byObs {
+				o.cur = Op{ID: -1, N: "FinalCheck"}
+				o.Fail(w.prop, "bystander-changed", "a second %s that the history never touched changed while the first was operated on:\n before %s\n after  %s", p.Cfg.Kind, byObs, now)
+			}
+		})
 	}
 	if !o.Failed() {
 		if h, ok := s.(interface{ FinalCheck(*Oracle) }); ok {
@@ -368,7 +380,7 @@ func (w *histWorld) Exec(p *Plan, st *RunStats) *Violation {
 		safely(o, probe, func() { o.cur = probe; zeroSizeProbe(o, w.prop, p.Cfg.Kind) })
 	}
 	if !o.Failed() && !w.count && usesCmp(p.Cfg.Kind) && familyOf(p.Cfg.Kind) != "list" && o.Active[w.prop] && p.Cfg.MapSeed%5 == 2 {
-		// the comparator is only ever asked about stored elements (pointer elements ordered by a field)
+		// pointer elements ordered by a field of the pointee (library panics are violations; a nil handed to the comparator is counted)
 		probe := Op{ID: -1, N: "PointerElementsWithDereferencingComparator"}
 		safely(o, probe, func() { o.cur = probe; pointerElementsProbe(o, w.prop, p.Cfg.Kind, int(p.Cfg.MapSeed>>36)) })
 	}
